@@ -1,5 +1,6 @@
 import HapModel.Drv.Basic
 import HapModel.Model.GenoIO
+import HapModel.Model.Subset
 namespace Drv
 open Lean GenoIO
 
@@ -31,5 +32,23 @@ def hGtRestrict (j : Json) : R Json := do
   let mx ← optF nat j "max"
   pure <| jObj [("rows", jArr ((keptSamples samples req).map jNat)),
                 ("cols", jArr ((keptVariants vars region ids mx).map jNat))]
+
+def jContents (c : Subset.Contents) : Json :=
+  jObj [("samples", jArr (c.samples.map jStr)), ("variants", jArr (c.variants.map jStr)),
+        ("data", jArr (c.data.map (fun r => jArr (r.map jNat))))]
+
+def subsetOp (j : Json) : R Subset.Op := do
+  let k ← strF j "k"
+  if k = "index" then pure (.index (← boolF j "s") (← boolF j "v"))
+  else pure (.subset (← optF (listOf str) j "rs") (← optF (listOf str) j "cs") (← boolF j "inplace"))
+
+/-- {"op":"subsetRun","samples":[…],"variants":[ids…],"data":[[cell…]…],"ops":[{"k":"index","s","v"}|{"k":"subset","rs","cs","inplace"}]}
+    → per op the contents of the returned / altered object (null for index) and the final contents of the object -/
+def hSubsetRun (j : Json) : R Json := do
+  let c : Subset.Contents := ⟨← listF str j "samples", ← listF str j "variants", ← listF (listOf nat) j "data"⟩
+  let ops ← listF subsetOp j "ops"
+  let r := Subset.run (Subset.fresh c) ops
+  pure <| jObj [("outs", jArr (r.2.map (fun o => match o with | none => Json.null | some x => jContents x))),
+                ("final", jContents r.1.toContents)]
 
 end Drv
